@@ -881,9 +881,15 @@ class StrainEnergy:
             3x3 rotation matrix
         '''
         self.rotation = np.array(rot)
+        # Apply the rotation to tensors that were set before the rotation
+        if self.unrotated_cMatrix_4th.any():
+            self.update()
 
     def setRotationPrecipitate(self, rot):
         self.rotationPrec = np.array(rot)
+        # Apply the rotation to tensors that were set before the rotation
+        if self.unrotated_cMatrix_4th.any():
+            self.update()
 
     def setEigenstrain(self, strain):
         '''
